@@ -336,7 +336,7 @@ def heap_key(l):
     return (l.get('label', '').split('/n')[0], tuple(sorted(set(cls(o) for o in ops), key=str))[:12], size_class(len(ops)))
 
 PROPS['C18'] = dict(
-    id='C18', modules=['CollectionModel.Props.C18'], key=heap_key,
+    id='C18', modules=['CollectionModel.Props.C18', 'CollectionModel.Tie.LoopsArray'], key=heap_key,
     nontrivial=lambda l: any(o.get('op') in ('goWrite', 'goPairWrite', 'goMapSet', 'goMapDelete', 'setValue', 'setValues', 'appendValues',
                                              'insertValues', 'addValues', 'removeValues', 'reverse', 'sort', 'putValue', 'dropKey') for o in l.get('ops', [])),
     rule="cases = scripts over a table of handles (client Go arrays / association arrays / Go maps, the seven collection kinds, returned "
@@ -362,7 +362,7 @@ PROPS['C18'] = dict(
                "after every step; the isolation clause and the twin-script clause are judged on the real observations.",
     level_note="The storage programs are hand-written from the Go bodies at the granularity alloc / snapshot / in-place write / "
                "retarget; what each call computes is reused from the value-level models of C01/C02/C03/C14. Integer elements only. "
-               "Association objects are modelled by value (the catalog's copies made by fix 1dc6409).",
+               "Association objects are modelled by value (the catalog's copies made by fix 1dc6409). Third round: array.go's AsArray, GetValues and the class constructors Make / MakeFromArray are translated onto the memory of arrays, and Tie.arrayAsArray_tie / arrayGetValues_tie / arrayClassMakeFromArray_tie show that what they hand out is a NEW array (its id did not exist before) with the right contents, every existing array unchanged.",
     assumptions=["element objects that are themselves mutable reference types (nested collections as elements) are shared by design of Go interfaces and not claimed"],
 )
 
